@@ -31,7 +31,7 @@ N = {'quick': 500, 'thorough': 2500}
 STORAGES = ['new_pickle', 'new_copy', 'wu', 'cache', 'cache_eager', 'diskcache', 'cache_short', 'cache_over_copy',
             'new_file']
 READS = ['idx', 'neg', 'np', 'key', 'slice', 'iter', 'items', 'copy', 'copyf', 'view', 'iter_mut', 'items_mut',
-         'prefetch_twice', 'cycle_mut']
+         'prefetch_twice', 'cycle_mut', 'iter_lookahead']
 MUTS = ['set', 'append', 'del', 'clear', 'nested', 'array', 'array_scale']
 BIG = 131072
 
@@ -256,6 +256,18 @@ class World:
                 mutate(obj, 'set')
                 mutate(obj, 'array')
             return [(i, o) for i, o in out] + [('mutated-in-loop', None)]
+        if how == 'iter_lookahead':
+            # while an iteration is at position p the consumer looks AHEAD by index (the last example), changes what
+            # it got and goes on iterating: the pass still delivers the stored example when it gets there
+            out = []
+            for i, obj in enumerate(ds):
+                out.append((i, copy.deepcopy(obj)))
+                if i == p and p < n - 1:
+                    ahead = ds[n - 1]
+                    out.append((n - 1, copy.deepcopy(ahead)))
+                    mutate(ahead, 'set')
+                    mutate(ahead, 'array')
+            return out + [('mutated-in-loop', None)]
         if how == 'cycle_mut':
             # two rounds through ds.cycle(), every example changed as soon as it is received: the second round hands
             # out fresh examples again, not the objects of the first
@@ -463,4 +475,23 @@ def run_shard(tier, idx, nshards, rec, known):
                                 continue
                             o0.violation = (case, v.sig, v.detail)
                             return [o0]
+    if idx == 1 % nshards:
+        # enumerated: the FIRST thing that happens to a cold cache (memory, disk) is a pass during which the consumer
+        # looks ahead by index and edits what it got; every position of the pass, every container and payload kind
+        from ..common import Outcome
+        o1 = Outcome()
+        for storage in ('cache', 'diskcache', 'cache_over_copy', 'new_pickle'):
+            for container in ('list', 'dict'):
+                for payload in ('dict', 'array', 'tuple'):
+                    for p_ in (0, 1, 2):
+                        for tail in ([], [['read', 'neg', 3, None]], [['read', 'iter_mut', 0, None]]):
+                            case = {'storage': storage, 'container': container, 'payload': payload, 'n': 4,
+                                    'steps': [['read', 'iter_lookahead', p_, None]] + tail + [['scan']]}
+                            try:
+                                one(case)
+                            except Violation as v:
+                                if known.match(v.sig):
+                                    continue
+                                o1.violation = (case, v.sig, v.detail)
+                                return [o1]
     return [drive(one, st_case(), N[tier], rec, known, seed() * 1000 + idx)]
